@@ -422,7 +422,8 @@ theorem evalStmts_css (sw : Switches) (loadF : LoadF) (hR : Restores loadF) (hP 
 
 theorem resolve_mem (proj : Project) (u : Url) (src : ModSrc) (h : resolve proj u = some src) : src ∈ proj := by
   unfold resolve at h
-  exact List.mem_of_find?_eq_some h
+  obtain ⟨c, _, hc⟩ := List.exists_of_findSome?_eq_some h
+  exact List.mem_of_find?_eq_some hc
 
 theorem load_css (sw : Switches) (proj : Project) (hwf : proj.wf = true) : ∀ fuel, CssOK (load sw proj fuel) := by
   have hbody : ∀ src ∈ proj, nCss src.body ≤ 1 := by
